@@ -182,15 +182,15 @@ def binarySearch (check : Nat → Nat → Bool) (n : Nat) : List (Nat × Nat) :=
   if s < e then (if check s e then [(s, e)] else []) else []
 
 /-- sub-ranges pushed by `doExclusionSearch` for a range `[s,e)` that may match, in the
-order they are popped (ascending). -/
+order they are popped (ascending). Go: `for end = e; end > s+step; end -= step { push (end-step,
+end) }; push (s, end)` — the stack is popped last-in first-out, i.e. `(s,end)` first, then the
+pieces of width `step` in ascending order. Written here from the right end. -/
+def splitR (s step : Nat) : Nat → Nat → List (Nat × Nat)
+  | 0, e => [(s, e)]
+  | fuel + 1, e => if e > s + step then splitR s step fuel (e - step) ++ [(e - step, e)] else [(s, e)]
+
 def exclSplit (coarse : Nat) (s e : Nat) : List (Nat × Nat) :=
-  let step := (e - s - 1) / coarse + 1
-  -- Go: for end = e; end > s+step; end -= step { push (end-step,end) }; push (s,end)
-  let rec go : Nat → Nat → List (Nat × Nat) → List (Nat × Nat)
-    | 0, en, acc => (s, en) :: acc
-    | fuel + 1, en, acc =>
-      if en > s + step then go fuel (en - step) ((en - step, en) :: acc) else (s, en) :: acc
-  go (e - s) e []
+  splitR s ((e - s - 1) / coarse + 1) (e - s) e
 
 /-- leaves (single fragments) that survive the exclusion search, ascending. -/
 def exclLeaves (check : Nat → Nat → Bool) (coarse : Nat) : Nat → Nat → Nat → List Nat
